@@ -342,6 +342,8 @@ fn float_case() -> impl Strategy<Value = Case> {
     let raw = prop_oneof![2 => any::<u64>(), 3 => prop::sample::select(raws(1 << 20)), 2 => (0u64..4096).prop_map(|k| u64::MAX - k), 1 => (0u64..64).prop_map(|k| (1u64 << 53).wrapping_add(k).wrapping_sub(32))];
     let pair = prop_oneof![
         3 => (boundary_float(), boundary_float()).prop_map(|(a, b)| if a < b { (a, b) } else { (b, a) }),
+        // end - start overflows to infinity
+        1 => (0.5f64..1.0, 0.5f64..1.0).prop_map(|(a, b)| (-a * f64::MAX, b * f64::MAX)),
         // ulp-wide and few-ulp-wide ranges
         2 => (boundary_float(), 1u64..4).prop_map(|(a, k)| {
             let b = a.to_bits();
